@@ -6,6 +6,7 @@ abandon discipline of SegmentFetcher, the retirement of ShareFinder requests,
 the Deferred plumbing of Segmentation and the delivery of every queued segment
 request."""
 from sa.h import *
+from sa.rules.C04 import Ownership
 
 EXPLANATION = (
     "Decided (structural, all paths): (1) active-segment typestate of DownloadNode: every function that retires the "
@@ -164,10 +165,11 @@ def _is_none(e):
     return isinstance(e, ast.Constant) and e.value is None
 
 
-def _completes_when(fn, infeasible, dies=None):
-    """(the normal exit is reachable along normal edges whose fact does not satisfy `infeasible` and
-    without executing a `dies` node, number of states).  Used to ask whether a handler still gets through
-    for the one situation it exists for (the active fetcher failing, a Failure being delivered)."""
+def _completes_when(fn, infeasible, dies=None, dead_edge=None):
+    """(the normal exit is reachable along normal edges whose fact does not satisfy `infeasible`, that are
+    not a `dead_edge(node, label)`, and without executing a `dies` node, number of states).  Used to ask
+    whether a handler still gets through for the one situation it exists for (the active fetcher failing,
+    a Failure being delivered for the fetcher that is still the active one)."""
     cfg = fn.cfg()
     fx = FlowNorm(fn)
 
@@ -175,6 +177,8 @@ def _completes_when(fn, infeasible, dies=None):
         if lab == "exc":
             return None
         if n.kind not in ("entry", "exit", "raise") and dies is not None and dies(n):
+            return None
+        if dead_edge is not None and dead_edge(n, lab):
             return None
         f = fx.edge_fact(n, lab)
         if f and infeasible(*f):
@@ -281,13 +285,21 @@ def run(ctx: Context):
     if not retire_regs:
         raise AnchorVanished("process_blocks registers no callback that retires the segment requests")
     deliver_reg, deliver_fn = retire_regs[0]
+    # The delivery callback runs on a later turn.  On an edge on which it has seen that _active_segment is not the
+    # fetcher process_blocks read from it before the Deferred was set up (C04's Ownership model: identity test
+    # against a pre-gap capture), the cancel path has already retired that fetcher, removed the segment's requests
+    # and started the next one: there is nothing left to reset, extract or start on that path.
+    own = Ownership(idx, idx.cls(NODE))
+
+    def overtaken(n, lab):
+        return own.abandons(deliver_fn, n, lab)
 
     # -- 1. active-segment typestate ----------------------------------------
     with ctx.rule("C46.1", "R1/E3", "DownloadNode: whoever retires the active fetcher resets _active_segment to None "
                   "and then calls _start_new_segment(); get_segment queues then starts; _start_new_segment installs a "
                   "fetcher only when none is active and wakes it; the retiring functions complete for the case they serve; "
                   "_cancel_request keeps the other requests", expected=8) as r:
-        def typestate(fn, stopped0):
+        def typestate(fn, stopped0, nothing_to_retire=None):
             cfg = fn.cfg()
 
             def step(n, st):
@@ -306,10 +318,15 @@ def run(ctx: Context):
             def transfer(n, lab, nxt, st):
                 if n.kind in ("entry", "exit", "raise") or lab == "exc":
                     return st
-                return step(n, st)
+                st = step(n, st)
+                if nothing_to_retire is not None and nothing_to_retire(n, lab):
+                    st = (False, st[1])
+                return st
             visited, parent = explore(cfg, (stopped0, 0), transfer)
             r.count(len(visited))
             r.site(fn, None, "retires the active fetcher")
+            if (cfg.exit.id, (True, 0)) in visited or (cfg.exit.id, (True, 1)) in visited:
+                own.refuse_opaque(fn, "C46.1")
             if (cfg.exit.id, (True, 0)) in visited:
                 w = witness(cfg, parent, (cfg.exit.id, (True, 0)))
                 r.violation(fn, fn.loc(), "%s can finish with _active_segment still bound to the finished "
@@ -321,7 +338,7 @@ def run(ctx: Context):
                             "queued requests for other segments are never started (path: %s)" % (short(fn), w.brief()), w)
 
         typestate(idx.func(NODE + ".fetch_failed"), True)
-        typestate(deliver_fn, True)
+        typestate(deliver_fn, True, overtaken)
         cr = idx.func(NODE + "._cancel_request")
         if not cr.cfg().find(lambda n: any(call_tail(c) == "stop" for c in node_calls(n))):
             raise AnchorVanished("_cancel_request no longer stops the active fetcher")
@@ -346,7 +363,7 @@ def run(ctx: Context):
         r.site(deliver_fn, None, "completes for a Failure")
         if deliver_reg.kind in ("both", "eb"):       # (a callback-only registration is reported by C46.5)
             ok, k = _completes_when(deliver_fn, lambda op, l, rr: op == "false" and bool(is_fail.match(l or "")),
-                                    _destructures(resp))
+                                    _destructures(resp), overtaken)
             r.count(k)
             r.require(ok, deliver_fn, deliver_fn.loc(), "%s is called with the Failure of a decode / ciphertext-hash error, "
                       "but every path that is open for a Failure unpacks `%s` like a segment tuple: it raises before "
@@ -813,7 +830,10 @@ def run(ctx: Context):
             heads = [n for n in cfg.nodes if n.kind == "iter" and contains_call(n.ast.iter, "_extract_requests")]
             if not heads:
                 raise AnchorVanished("%s no longer iterates over _extract_requests(..)" % short(fn))
-            _must_pass(r, fn, lambda n, _h=heads: n in _h, "extracting the requests of the finished segment")
+            if fn is deliver_fn and _unexcused(fn, lambda n, _h=heads: n in _h, overtaken)[0]:
+                own.refuse_opaque(fn, "C46.5")
+            _must_pass(r, fn, lambda n, _h=heads: n in _h, "extracting the requests of the finished segment",
+                       overtaken if fn is deliver_fn else None)
             for h in heads:
                 n_loops += 1
                 r.site(fn, h.ast, "delivery loop")
